@@ -114,6 +114,28 @@ func c07Corpus() []c07Prog {
 		p.Flow("A", "end", "")
 		mk("twelve tokens into one task and one end event", p, "", nil, []string{"A"}, "")
 	}
+	{ // two tokens headed for one sub-process: the second activation is queued behind the first when the cancel comes
+		p := &Prog{}
+		p.Node("start", "start")
+		p.Node("par", "F")
+		p.Node("task", "G")
+		sn := p.Node("sub", "S")
+		sn.Sub = &Prog{nflow: 700}
+		sn.Sub.Node("start", "ss")
+		sn.Sub.Node("task", "A")
+		sn.Sub.Node("end", "se")
+		sn.Sub.Flow("ss", "A", "")
+		sn.Sub.Flow("A", "se", "")
+		p.Node("task", "Z")
+		p.Node("end", "end")
+		p.Flow("start", "F", "")
+		p.Flow("F", "S", "")
+		p.Flow("F", "G", "")
+		p.Flow("G", "S", "")
+		p.Flow("S", "Z", "")
+		p.Flow("Z", "end", "")
+		mk("two tokens headed for one sub-process, the second queued", p, "", nil, []string{"G"}, "")
+	}
 	{ // a sub-process that cannot start (no start event inside): error trace, the token stays at the sub-process
 		p := &Prog{}
 		p.Node("start", "start")
